@@ -20,7 +20,7 @@ from lib import cmd, Sym, import_impl, outcome
 META = dict(
     technique='Coq theorems on a whole-program model argv -> bytes of cnfgen (sub-command and option parsing, graph arguments, family models, -T chains, writers, header) + byte-for-byte comparison with the real tool + three-way differential: CLI vs documented library call vs extracted family models + seeded library sessions',
     category='proof',
-    text='Theorems (Prop_C17.v, Prop_C17_variants.v, Prop_C17_pipeline.v, Prop_C17_files.v: the latter adds file arguments read by the C14 reader models, kthlist2pebbling = cnfgen peb on the same file text for every text, cnfgen dimacs idempotent through the tool, totality over all argv, file maps and stdin): split_T is a right inverse of joining with -T for every argv; in the '
+    text='Theorems (Prop_C17.v, Prop_C17_variants.v, Prop_C17_pipeline.v, Prop_C17_files.v, Prop_C17_chain.v: the latter adds file arguments read by the C14 reader models, kthlist2pebbling = cnfgen peb on the same file text for every text, cnfgen dimacs idempotent through the tool, totality over all argv, file maps and stdin; Prop_C17_chain.v composes the two whole-program models along the pipe `cnfgen <argv> | cnfgen -q dimacs`: the same bytes come out): split_T is a right inverse of joining with -T for every argv; in the '
          'model cnfgen_main, a chain -T t1 ... -T tk equals the left-to-right fold of the transformation models over the family model (induction '
          'on the number of chunks), whatever is written reads back as exactly that formula with all literals in range, every argv yields output, '
          'a clean error or "outside the modelled grammar", and each variant option (php --functional/--onto, op variants and --plant, output '
